@@ -365,8 +365,11 @@ def r1_witness_fold(L, repo, spec):
     members = {m.name: m for m in Ev(repo, mod).enum_members(mci)}
     n = 0
 
+    session = {}        # class-level / module-level containers live as long as the process: one state for all witnesses
+
     def verdict(ci, flds):
         e = Ev(repo, ci.mod, env={"self." + k: v for k, v in flds.items()}, self_cls=ci)
+        e.gstate = session
         e.ignore_calls = ("log.", "logging.")
         c, v = repo.find_method(ci, "validate")
         try:
@@ -397,6 +400,10 @@ def r1_witness_fold(L, repo, spec):
                 scen.append(("RxMsg", "Rx v1 burst/%s" % mname, {"ver": 1, "fn": 1000, "tn": 3, "rssi": -60, "toa256": 0, "ci": 0, "nope_ind": False,
                                                                  "mod_type": members[mname], "tsc_set": 0, "tsc": 0, "burst": Arr("b", [1] * bl)},
                              rng, [bl], lambda n_: Arr("b", [1] * n_)))
+    # every scenario's valid message is validated once before any boundary witness (what validating one kind of message
+    # leaves behind must not change the verdict on another kind)
+    for cls, title, base, ranges, lens, mkburst in scen:
+        verdict(repo.need_class("data_msg", cls), base)
     for cls, title, base, ranges, lens, mkburst in scen:
         ci = repo.need_class("data_msg", cls)
         L.fn(F, cls + ".validate")
